@@ -6,6 +6,11 @@ import DFV.Lemmas.C10Series
 import DFV.Lemmas.C10Inv
 import DFV.Lemmas.C10Legacy
 import DFV.Lemmas.C10Dict
+import DFV.Lemmas.C10Weak
+import DFV.Lemmas.C10Iff
+import DFV.Lemmas.C10LegacyIff
+import DFV.Lemmas.C10Raw
+import DFV.Lemmas.C10Accept
 /-!
 # C10 — HDF5 files preserve the complete state of a field
 
@@ -19,9 +24,23 @@ patterns, NaN / inf / −0 included, under valid and invalid cells alike — and
 universally quantified.
 
 `f.Inv` is what the constructors `Region.__init__`, `Mesh.__init__` (incl. the `subregions`
-setter) and `Field.__init__` guarantee for any field they return (`reader_returns_inv`,
-`legacy_field_inv` prove it for the fields the readers return); the harness evaluates the same
-(decidable) predicate on the states of the real fields it writes.
+setter) and `Field.__init__` guarantee for EVERY field they return (`mesh_constructor_inv`,
+`field_constructor_inv`) and the readers for every file (`any_file_reader_returns_inv`).  Since
+repo fix 5591fed0 (D132, found by this property's round 2) the setter tests each candidate as it is
+going to be stored — with the mesh region's names, units and tolerance factor
+(`setter_test_is_on_stored_copy`) — so every stored subregion passes the tests again when the
+reader presents it, and every constructor-built field round-trips (`constructor_field_roundtrips`).
+`InvW` is `Inv` without the acceptance clause; for ARBITRARY states `h5_reread_accepts_iff` says
+when the reader accepts the writer's file.  The harness evaluates the same (decidable) predicates
+on the states of the real fields it writes.
+
+Round 2 adds: the three exceptions as equivalences (`h5_roundtrip_items_iff`,
+`h5_roundtrip_exact_iff`), acceptance of versioned and legacy files characterised from their
+content (`versioned_accepted_iff`, `legacy_read_iff`, `legacy_sidecar_accepted_iff`), the file as
+h5py shows it with entries missing / foreign / retyped (`written_entries_all_read`,
+`missing_entry_refused`, `missing_subregion_datasets`, `extra_entries_ignored`,
+`retyped_entry_refused`, `ndim_never_inspected`), element widths (`raw_roundtrip_widths`,
+`narrow_int_values_roundtrip`) and overwriting (`overwrite_last_wins`).
 -/
 namespace DFV.C10
 open DFV
@@ -597,6 +616,445 @@ theorem hdf5_suffixes (s : String) :
           · cases h
     · rintro (rfl | rfl) <;> decide
 
+
+/-! # Round 2 -/
+
+/-! ## The three exceptions, exactly -/
+
+/-- **The item list of the property holds iff none of the three exceptions applies.**  For every
+constructor-grade field: the field read back agrees with the field written in every item the
+property lists (as in `h5_roundtrip_partial`) **if and only if** the unit is not the string
+`"None"` (D32), labels are present or the field has a single component (D34), and integer data
+have at most 53 significant bits (D33).  `h5_roundtrip_partial` is the "if" direction. -/
+theorem h5_roundtrip_items_iff (f : TFld) (hf : f.Inv) :
+    (∃ g, h5Load (h5Save f) = .ok g ∧
+      g.mesh.region = f.mesh.region ∧ g.mesh.n = f.mesh.n ∧ g.mesh.bc = f.mesh.bc ∧
+      g.mesh.subs.map (fun p => (p.1, p.2.pmin.vals, p.2.pmax.vals, p.2.dims, p.2.units, p.2.tol))
+        = f.mesh.subs.map (fun p => (p.1, p.2.pmin.vals, p.2.pmax.vals, p.2.dims, p.2.units, p.2.tol)) ∧
+      g.nvdim = f.nvdim ∧ g.vdims = f.vdims ∧ g.unit = f.unit ∧
+      g.data.shape = f.data.shape ∧ g.data.buf.vals = f.data.buf.vals ∧
+      (g.data.buf.kind = .complex ↔ f.data.buf.kind = .complex) ∧
+      g.valid = f.valid ∧ g.vmap = defaultVmap f.nvdim f.mesh.region.dims f.vdims) ↔
+    (f.unit ≠ some "None" ∧ (f.vdims = none → f.nvdim = 1) ∧ f.data.buf.IntSafe) := by
+  constructor
+  · rintro ⟨g, hg, _, _, _, _, _, hvd, hun, _, hvals, _, _, _⟩
+    rw [h5_roundtrip_reread f hf] at hg
+    cases hg
+    refine ⟨(decUnit_encUnit _).mp hun, ?_, (DBuf.upcast_vals_iff _).mp hvals⟩
+    intro hnone
+    have : rereadVdims f = f.vdims := hvd
+    simp only [rereadVdims, hnone, recodeVdims, defaultVdims_none_iff] at this
+    exact this
+  · rintro ⟨hu, hv, hi⟩
+    exact h5_roundtrip_partial f hf hu hv hi
+
+/-- the unit, on whole fields: it comes back iff it is not the string `"None"` (D32, as an
+equivalence; `unit_None_is_lost` is the negative direction) -/
+theorem unit_field_roundtrip_iff (f : TFld) (hf : f.Inv) :
+    (∃ g, h5Load (h5Save f) = .ok g ∧ g.unit = f.unit) ↔ f.unit ≠ some "None" := by
+  constructor
+  · rintro ⟨g, hg, hu⟩
+    rw [h5_roundtrip_reread f hf] at hg
+    cases hg
+    exact (decUnit_encUnit _).mp hu
+  · intro hu
+    exact ⟨reread f, h5_roundtrip_reread f hf, (decUnit_encUnit _).mpr hu⟩
+
+/-- **The exact round trip, as an equivalence.**  The field read back IS the field written —
+every dtype included — iff: unit not `"None"`, labels present or one component, every subregion
+corner array already in the dtype of the corner table, data not integer-typed, and the
+component-to-axis mapping the default one.  (`h5_roundtrip` is the "if" direction.) -/
+theorem h5_roundtrip_exact_iff (f : TFld) (hf : f.Inv) :
+    h5Load (h5Save f) = .ok f ↔
+      (f.unit ≠ some "None" ∧ (f.vdims = none → f.nvdim = 1) ∧
+       (∀ p ∈ f.mesh.subs, p.2.pmin.kind = tableKind f.mesh ∧ p.2.pmax.kind = tableKind f.mesh) ∧
+       f.data.buf.kind ≠ .int ∧ f.vmap = defaultVmap f.nvdim f.mesh.region.dims f.vdims) := by
+  rw [h5_roundtrip_reread f hf, ← reread_eq_self_iff]
+  constructor
+  · intro h; injection h
+  · intro h; rw [h]
+
+/-! ## What the constructors guarantee for every input, and when the reader accepts the writer's file -/
+
+/-- **The setter tests what it stores** (repo fix 5591fed0, D132).  For a valid mesh region and a
+valid candidate region, the `subregions` setter's test `candOk` — rebuild the candidate with the
+mesh region's names, units and tolerance factor, then: inside the region, an aggregate of cells,
+aligned — is the three tests on the candidate's corner pair with the MESH's tolerance factor; the
+candidate's own names, units and tolerance factor have no say; and the subregion that is stored
+(`restampT`) passes the very same tests. -/
+theorem setter_test_is_on_stored_copy (r : TReg) (hr : r.Inv) (n : List Nat) (s : TReg) (hs : s.Inv) (nm : String) :
+    candOk r n s = subAccept r.toRegion n { s.toRegion with tol := r.tol.val } ∧
+    candOk r n s = subAccept r.toRegion n (restampT r (nm, s)).2.toRegion ∧
+    ∀ d u t, candOk r n { s with dims := d, units := u, tol := t } = candOk r n s := by
+  refine ⟨candOk_eq r hr n s hs, candOk_eq_stampC r hr n s hs, ?_⟩
+  intro d u t
+  unfold candOk
+  by_cases hnd : s.ndim = r.ndim
+  · have hnd' : ({ s with dims := d, units := u, tol := t } : TReg).ndim = r.ndim := hnd
+    rw [if_pos hnd, if_pos hnd']
+  · have hnd' : ¬ ({ s with dims := d, units := u, tol := t } : TReg).ndim = r.ndim := hnd
+    have hlen : s.toRegion.pmin.length ≠ r.toRegion.ndim := by
+      show s.pmin.vals.length ≠ r.pmin.vals.length
+      rw [NumArr.vals_length, NumArr.vals_length]
+      exact hnd
+    rw [if_neg hnd, if_neg hnd']
+    simp only
+    rw [subAccept_false_of_length _ _ _ hlen]
+    exact subAccept_false_of_length r.toRegion n ({ s with dims := d, units := u, tol := t } : TReg).toRegion hlen
+
+/-- **`Mesh.__init__` establishes the invariant `Inv`** for any region that has the region
+invariant, any counts and boundary condition it accepts, and ANY dict of candidate subregions
+(distinct names: dict keys), whatever names, units and tolerance factor the candidates carry:
+counts positive, boundary condition lower-cased and legal, every stored subregion re-stamped with
+the mesh's names, units and tolerance, corners ordered and of one dtype, and passing the setter's
+three tests as it is stored. -/
+theorem mesh_constructor_inv (r : TReg) (hr : r.Inv) (n : List Int) (bc : String) (subs : List (String × TReg))
+    (hinv : ∀ p ∈ subs, p.2.Inv) (hnd : hasDup (subs.map fun p => p.1) = false) (m : TMesh)
+    (h : TMesh.init r n bc subs = .ok m) : m.Inv :=
+  TMesh.init_inv r hr n bc subs hinv hnd m h
+
+/-- … what it stores: the region, counts, lower-cased boundary condition, and the candidates
+re-stamped, in dict order -/
+theorem mesh_constructor_items (r : TReg) (hr : r.Inv) (n : List Int) (bc : String) (subs : List (String × TReg))
+    (hinv : ∀ p ∈ subs, p.2.Inv) (m : TMesh) (h : TMesh.init r n bc subs = .ok m) :
+    m.region = r ∧ m.n = n.map Int.toNat ∧ m.bc = bc.toLower ∧ m.subs = subs.map (restampT r) ∧
+    ∀ p ∈ subs, candOk r (n.map Int.toNat) p.2 = true :=
+  TMesh.init_items r hr n bc subs hinv m h
+
+/-- … and `Field.__init__` on such a mesh (any value array with as many entries as its shape
+says, any labels / unit / validity it accepts) -/
+theorem field_constructor_inv (m : TMesh) (hm : m.Inv) (nvdim : Option Int) (value : DArr) (vdims : Option (List String))
+    (unit : Option String) (valid : Option VArr) (hwf : value.buf.length = natProd value.shape)
+    (hvwf : ∀ w, valid = some w → w.buf.length = natProd w.shape) (f : TFld)
+    (h : TFld.init m nvdim value vdims unit valid = .ok f) : f.Inv :=
+  init_inv m hm nvdim value vdims unit valid hwf hvwf f h
+
+/-- **Every constructor-built field round-trips** (the positive counterpart of the round-2 finding
+D132): for ANY valid region — with any tolerance factor of its own —, any counts, boundary
+condition, dict of candidate subregions carrying any tolerance factors, and any value / labels /
+unit / validity the constructors accept, `from_file(to_file(f))` succeeds and returns `reread f`
+(then `h5_roundtrip_items_iff` says which items agree). -/
+theorem constructor_field_roundtrips (r : TReg) (hr : r.Inv) (n : List Int) (bc : String) (subs : List (String × TReg))
+    (hinv : ∀ p ∈ subs, p.2.Inv) (hnd : hasDup (subs.map fun p => p.1) = false) (m : TMesh)
+    (hm : TMesh.init r n bc subs = .ok m) (nvdim : Option Int) (value : DArr) (vdims : Option (List String))
+    (unit : Option String) (valid : Option VArr) (hwf : value.buf.length = natProd value.shape)
+    (hvwf : ∀ w, valid = some w → w.buf.length = natProd w.shape) (f : TFld)
+    (hf : TFld.init m nvdim value vdims unit valid = .ok f) :
+    h5Load (h5Save f) = .ok (reread f) :=
+  h5_roundtrip_reread f (init_inv m (TMesh.init_inv r hr n bc subs hinv hnd m hm) nvdim value vdims unit valid hwf hvwf f hf)
+
+/-- `Inv` is `InvW` (everything but the acceptance clause) plus: every stored subregion passes
+the setter's three tests as it is stored -/
+theorem inv_iff_invW_rereadable (f : TFld) : f.Inv ↔ f.InvW ∧ f.mesh.rereadableB = true :=
+  TFld.inv_iff_weak f
+
+/-- **For an arbitrary state: the reader accepts the file the writer leaves iff the stored
+subregions pass the setter's tests.**  For every state with `InvW` (well-formed, but not
+necessarily built by the fixed constructor — e.g. a mesh pickled by an older version):
+`from_file(to_file(f))` succeeds — with the result `reread f` — **iff** every stored subregion
+passes the three tests with the mesh's tolerance; otherwise `from_file` RAISES on the file
+`to_file` wrote.  Before repo fix 5591fed0 the constructor could build such states
+(`tolerant_candidate_refused`). -/
+theorem h5_reread_accepts_iff (f : TFld) (hf : f.InvW) :
+    (∃ g, h5Load (h5Save f) = .ok g) ↔ f.mesh.rereadableB = true := by
+  rw [h5Load_h5Save_ok_iff f hf, TFld.inv_iff_weak]
+  exact ⟨fun h => h.2, fun h => ⟨hf, h⟩⟩
+
+/-- … in which case the result is `reread f` -/
+theorem h5_reread_of_rereadable (f : TFld) (hf : f.InvW) (h : f.mesh.rereadableB = true) :
+    h5Load (h5Save f) = .ok (reread f) :=
+  h5_roundtrip_reread f ((TFld.inv_iff_weak f).mpr ⟨hf, h⟩)
+
+/-- **The round-2 witness, after the fix.**  Region (0)–(10 nm) in 10 cells; candidate subregion
+(0)–(0.9995 nm) carrying `tolerance_factor=1e-2`.  (1) On a mesh with the default tolerance the
+constructor now REFUSES it (before the fix it was accepted and the file could not be read back:
+the state `exTolField` has `InvW`, is not re-readable, and the reader refuses its file).  (2) On a
+mesh whose REGION carries `tolerance_factor=1e-2` the candidate is accepted — whatever tolerance
+it carries itself —, stored with the mesh's tolerance, the file keeps the region's tolerance
+factor, and the reader — presenting the corner pair with the default tolerance, which the setter
+replaces by the mesh's — accepts it: the field round-trips. -/
+theorem tolerant_candidate_refused :
+    (∃ e, TMesh.init exTolRegion [10] "" [("a", exTolCand)] = .error e) ∧
+    (exTolField.InvW ∧ ∃ e, h5Load (h5Save exTolField) = .error e) ∧
+    TMesh.init exTolRegionLoose [10] "" [("a", exTolCand)] = .ok exTolMeshLoose ∧
+    TMesh.init exTolRegionLoose [10] "" [("a", { exTolCand with tol := TReg.defaultTol })] = .ok exTolMeshLoose ∧
+    h5Load (h5Save exTolFieldLoose) = .ok (reread exTolFieldLoose) := by
+  refine ⟨⟨.value, by decide +kernel⟩, ⟨by unfold TFld.InvW; decide +kernel, .value, by decide +kernel⟩,
+    by decide +kernel, by decide +kernel, by decide +kernel⟩
+
+/-! ## Legacy layout, from the stored items alone -/
+
+/-- **The legacy reader, as an equivalence, for every legacy file.**  A file of the old layout
+(datasets `p1`, `p2`, `n`, `dim`, `array` with as many entries as its shape says, optional
+side-car) is read to `g` **iff** its stored items are well formed — at least one axis, `p1`/`p2`
+equally long and different in every component (ANY order per axis, any dtypes), one positive count
+per axis, `dim ≥ 1`, an array shape `_as_array` accepts: the field's shape `(*n, dim)`, the mesh's
+shape `n` when `dim = 1`, or anything with last axis `dim` that broadcasts — and the side-car (if
+any) is accepted by `load_subregions`; and then `g` is `legacyFieldOn`: region spanning the
+element-wise min/max of `p1`, `p2` with default names, units, tolerance, the stored counts, the
+array broadcast to `(*n, dim)` with integers converted to binary64, every cell valid, default
+labels, no unit, the side-car's subregions. -/
+theorem legacy_read_iff (l : Legacy) (hwf : l.array.buf.length = natProd l.array.shape) (g : TFld) :
+    h5Load (.unversioned l) = .ok g ↔
+      l.WellFormed ∧ ∃ m', sidecarLoad (legacyField l).mesh l.sidecar = .ok m' ∧ g = legacyFieldOn l m' :=
+  legacyLoad_iff l hwf g
+
+/-- … without side-car: **accepted iff well formed** (the refusal direction of `legacy_read`) -/
+theorem legacy_accepted_iff (l : Legacy) (hwf : l.array.buf.length = natProd l.array.shape) (hsc : l.sidecar = none) :
+    (∃ g, h5Load (.unversioned l) = .ok g) ↔ l.WellFormed := by
+  constructor
+  · rintro ⟨g, hg⟩
+    exact ((legacyLoad_iff l hwf g).mp hg).1
+  · intro h
+    exact ⟨_, (legacyLoad_iff l hwf _).mpr ⟨h, (legacyField l).mesh, by rw [hsc]; rfl, rfl⟩⟩
+
+/-- what the two `_as_array` passes make of the stored array: an array of the field's shape is
+taken entry for entry (integers converted to binary64), a mesh-shaped array of a one-component
+field likewise, any other accepted array is broadcast (`bcastIdx`) — and the result always has the
+field's shape and as many entries -/
+theorem legacy_array_conversion (val : DArr) (n : List Nat) (k : Nat) (hwf : val.buf.length = natProd val.shape) :
+    (val.shape = n ++ [k] → arrAcceptB val.shape n k = true ∧ arrConv val n k = { shape := n ++ [k], buf := val.buf.upcast }) ∧
+    (k = 1 → val.shape = n → arrAcceptB val.shape n k = true ∧ arrConv val n k = { shape := n ++ [1], buf := val.buf.upcast }) ∧
+    (arrAcceptB val.shape n k = true →
+      (arrConv val n k).shape = n ++ [k] ∧ (arrConv val n k).buf.length = natProd (n ++ [k])) := by
+  refine ⟨?_, ?_, ?_⟩
+  · intro hs
+    exact ⟨by rw [hs]; exact arrAccept_shaped n k, arrConv_shaped val n k hs hwf⟩
+  · intro hk hs
+    subst hk
+    refine ⟨by simp [arrAcceptB, hs], ?_⟩
+    unfold arrConv
+    rw [if_pos ⟨rfl, hs⟩]
+  · intro hacc
+    exact ⟨rfl, arrConv_wf val n k hwf hacc⟩
+
+/-- **Side-cars accepted within tolerance.**  `mesh.load_subregions` succeeds **iff** every entry
+of the side-car is a valid `Region(pmin=…, pmax=…, dims=…, units=…, tolerance_factor=…)`
+(`sidecarRegions`: ordered corners, fitting names and units) and every region that remains after
+dict insertion (a repeated name keeps its first position and the last value) passes the setter's
+test `candOk` — the three TOLERANT tests (inside the mesh region within the region's tolerance, an
+aggregate of cells within 0.1 %, aligned within 1e-12; C14's `subOk`, `C14.setter_models_agree`)
+on the entry's corner pair with the MESH's tolerance factor (`setter_test_is_on_stored_copy`): the
+`tolerance_factor`, names and units a side-car entry carries are immaterial — and then the mesh
+carries exactly these boxes, names in dict order, corners in their common dtype, re-stamped with
+the mesh's names, units and tolerance.  (`legacy_read_sidecar_fits` is the special case of boxes
+that fit exactly.) -/
+theorem legacy_sidecar_accepted_iff (m : TMesh) (hm : m.InvW) (sc : List (String × H5Region)) (m' : TMesh) :
+    sidecarLoad m (some sc) = .ok m' ↔
+      ∃ ss, sidecarRegions sc = .ok ss ∧
+        (∀ p ∈ dictOf ss, candOk m.region m.n p.2 = true) ∧
+        m' = { m with subs := (dictOf ss).map (stampSub m.region) } :=
+  sidecarLoad_ok_iff m hm sc m'
+
+/-- **The legacy reader returns constructor-grade fields** (`Inv`) — for EVERY legacy file it
+accepts: any side-car, boxes accepted only within tolerance included, any accepted array shape. -/
+theorem legacy_reader_returns_inv (l : Legacy) (hwf : l.array.buf.length = natProd l.array.shape) (g : TFld)
+    (h : h5Load (.unversioned l) = .ok g) : g.Inv :=
+  legacyLoad_inv l hwf g h
+
+/-- … so **every legacy file converts**: the field of any legacy file the reader accepts can be
+written in the current layout and read again, with the result `reread g` -/
+theorem legacy_convert (l : Legacy) (hwf : l.array.buf.length = natProd l.array.shape) (g : TFld)
+    (h : h5Load (.unversioned l) = .ok g) : h5Load (h5Save g) = .ok (reread g) :=
+  h5_roundtrip_reread g (legacyLoad_inv l hwf g h)
+
+/-! ## The file as h5py shows it: entries missing, foreign, retyped -/
+
+/-- **Every entry the writer emits is read back, and nothing else is needed.**  The reader's
+accesses (`RawFile.parse`: names looked up, presence tests, order) on the raw view of any typed
+store give back that store: `rawLoad (toRaw h) = h5Load h` — whatever foreign entries `ex` the
+file holds besides. -/
+theorem written_entries_all_read (w : W) (ex : List String) (h : H5File) : rawLoad (h.toRaw w ex) = h5Load h :=
+  rawLoad_toRaw w ex h
+
+/-- **Round trip on the raw file, with element widths.**  For every constructor-grade field with
+a value array of any element width (float16/32/64, complex64/128, int8…int64): the dataset
+`array` is created with the array's width, and `from_file` returns `reread f` with width
+`widen kind w` — integer and real data come back as 64-bit floats, complex data keep their width
+(complex64 stays complex64). -/
+theorem raw_roundtrip_widths (x : WFld) (hf : x.f.Inv) :
+    (∃ fld, (rawSave x).field = some fld ∧ fld.array = some (x.w, x.f.data)) ∧
+    rawLoadW (rawSave x) = .ok { f := reread x.f, w := widen x.f.data.buf.kind x.w } ∧
+    (x.f.data.buf.kind = .complex → widen x.f.data.buf.kind x.w = x.w) ∧
+    (x.f.data.buf.kind ≠ .complex → widen x.f.data.buf.kind x.w = .b64) := by
+  refine ⟨⟨_, rfl, rfl⟩, rawLoadW_rawSave x hf, ?_, ?_⟩
+  · intro h; rw [h]; rfl
+  · intro h
+    cases hk : x.f.data.buf.kind with
+    | complex => exact absurd hk h
+    | int => rfl
+    | float => rfl
+
+/-- **Narrow integers always survive** (the D33 exception cannot occur below 64 bits): integer
+data of a dtype narrower than int64 whose entries lie in the dtype's range come back with every
+value unchanged. -/
+theorem narrow_int_values_roundtrip (x : WFld) (hf : x.f.Inv) (hw : x.w ≠ .b64) (hx : x.exactB = true) :
+    ∃ g, rawLoadW (rawSave x) = .ok g ∧ g.f.data.buf.vals = x.f.data.buf.vals ∧ g.w = widen x.f.data.buf.kind x.w := by
+  refine ⟨_, rawLoadW_rawSave x hf, ?_, rfl⟩
+  exact DBuf.upcast_vals _ (narrow_int_safe x.w hw _ hx)
+
+/-- second generation: the width read back is stable -/
+theorem width_fixed_point (k : DK) (w : W) : widen k (widen k w) = widen k w := widen_idem k w
+
+/-- **Foreign entries are ignored**: the reader's result does not depend on anything it does not
+look up — the writer's own two stamps (`discretisedfield.__version__`, `file-creation-time-UTC`)
+included, which may be removed. -/
+theorem extra_entries_ignored (r : RawFile) (ex : List String) :
+    rawLoadW { r with extras := ex } = rawLoadW r ∧
+    ∀ x : WFld, ∀ name ∈ writerExtras, rawLoadW ((rawSave x).del name) = rawLoadW (rawSave x) := by
+  refine ⟨rfl, ?_⟩
+  intro x name hn
+  simp only [writerExtras, List.mem_cons, List.not_mem_nil, or_false] at hn
+  rcases hn with rfl | rfl <;> rfl
+
+/-- **Every entry the reader needs is needed**: removing any one of the 18 names of
+`requiredNames` (file attributes `ubermag-hdf5-file-version`, `type`; group `field` with `nvdim`,
+`vdims`, `unit`, `array`, `valid`; group `mesh` with `n`, `bc`; group `region` with `pmin`,
+`pmax`, `dims`, `ndim`, `units`, `tolerance_factor`) from the file of ANY field makes `from_file`
+fail. -/
+theorem missing_entry_refused (x : WFld) (name : String) (h : name ∈ requiredNames) :
+    ∃ e, rawLoadW ((rawSave x).del name) = .error e := by
+  obtain ⟨e, he⟩ := del_required_error x name h
+  exact ⟨e, by unfold rawLoadW; rw [he]; rfl⟩
+
+/-- **The two subregion datasets, exactly as the code treats them.**  Without the corner table
+`subregions` (whether or not `subregion_names` is still there) the file is read as the same field
+WITHOUT subregions (the reader only tests `"subregions" in h5_mesh`); without `subregion_names`
+alone the reader fails iff the field has subregions (a field without subregions has neither
+dataset). -/
+theorem missing_subregion_datasets (x : WFld) (hf : x.f.Inv) :
+    rawLoadW ((rawSave x).del "field/mesh/subregions") =
+      .ok { f := reread { x.f with mesh := { x.f.mesh with subs := [] } }, w := widen x.f.data.buf.kind x.w } ∧
+    ((∃ e, rawLoadW ((rawSave x).del "field/mesh/subregion_names") = .error e) ↔ x.f.mesh.subs ≠ []) := by
+  constructor
+  · unfold rawLoadW
+    rw [del_table_eq]
+    simp only [bind_ok]
+    rw [h5_roundtrip_reread _ (inv_drop_subs x.f hf)]
+    rfl
+  · unfold rawLoadW
+    rw [del_names_eq]
+    by_cases hs : x.f.mesh.subs = []
+    · rw [if_pos hs, parse_rawSave]
+      simp only [bind_ok, h5_roundtrip_reread x.f hf]
+      constructor
+      · rintro ⟨e, he⟩; cases he
+      · intro h; exact absurd hs h
+    · rw [if_neg hs]
+      exact ⟨fun _ => hs, fun _ => ⟨_, rfl⟩⟩
+
+/-- **Retyped entries are refused**: in a file with a version attribute, if any entry the reader
+looks up — except `ndim` — holds a value of another type class (a number for a string or a list of
+strings, a string for a number or a numeric array, a float for an integer), `from_file` fails. -/
+theorem retyped_entry_refused (r : RawFile) (hv : r.version ≠ .absent)
+    (h : r.version = .other ∨ r.type = .other ∨ ∃ f, r.field = some f ∧
+      (f.nvdim = .other ∨ f.vdims = .other ∨ f.unit = .other ∨ ∃ m, f.mesh = some m ∧
+        (m.n = .other ∨ m.bc = .other ∨ ∃ g, m.region = some g ∧
+          (g.pmin = .other ∨ g.pmax = .other ∨ g.dims = .other ∨ g.units = .other ∨ g.tol = .other)))) :
+    ∃ e, rawLoadW r = .error e := by
+  obtain ⟨e, he⟩ := RawFile.parse_other r hv h
+  exact ⟨e, by unfold rawLoadW; rw [he]; rfl⟩
+
+/-- … while `ndim` is only looked up: present with any content (another number, a string) the
+region is built the same way; the typed reader never inspects it. -/
+theorem ndim_never_inspected :
+    (∀ (r : RawRegion) (a : AV Nat), a ≠ .absent →
+      ({ r with ndim := a } : RawRegion).parse.bind regionLoad = ({ r with ndim := .ok 0 } : RawRegion).parse.bind regionLoad) ∧
+    (∀ (v t : String) (fld : H5Field) (k : Nat),
+      h5Load (.versioned v t { fld with mesh := { fld.mesh with region := { fld.mesh.region with ndim := k } } }) =
+        h5Load (.versioned v t fld)) :=
+  ⟨RawRegion.parse_ndim, h5Load_ndim⟩
+
+/-! ## Which files of the versioned layout are accepted -/
+
+/-- **Acceptance of a versioned file, from its content alone (iff).**  `from_file` accepts a file
+with a version attribute **iff** `type` is `discretisedfield.Field`, the version is `0.1`, and the
+group `field` is `Accepted`:
+* the region attributes are well formed (`H5Region.okB`: `pmin`, `pmax` equally long, at least one
+  axis, `pmin < pmax` in EVERY component — never re-ordered —, as many distinct `dims` and as many
+  `units`);
+* every row of the corner table splits into two halves of the region's dimension that differ in
+  every component (`subsLoad` succeeds: `subsLoad_ok_iff`), and every region left after dict
+  insertion of the names passes the setter's test `candOk` (the three tolerant tests with the
+  stored region's tolerance factor);
+* one positive count per axis; the boundary condition, lower-cased, is legal for the stored names;
+* `nvdim ≥ 1`; `vdims` is a list the setter accepts (empty, or `nvdim` distinct names) or the
+  string `"None"` (any other plain string is refused);
+* `array` has a shape `_as_array` accepts (`(*n, nvdim)`, `n` when `nvdim = 1`, or broadcastable
+  with last axis `nvdim`) and `valid` one the validity setter accepts (`n`, or broadcastable to
+  `(*n, 1)` with last axis 1).
+Everything else is refused.  (`reader_returns_inv` says what is returned when accepted.) -/
+theorem versioned_accepted_iff (v t : String) (fld : H5Field) (hawf : fld.array.buf.length = natProd fld.array.shape) :
+    (∃ g, h5Load (.versioned v t fld) = .ok g) ↔ (t = "discretisedfield.Field" ∧ v = "0.1" ∧ fld.Accepted) := by
+  constructor
+  · rintro ⟨g, hg⟩
+    obtain ⟨ht, hv⟩ := accepted_only_field_v01 v t fld g hg
+    subst ht; subst hv
+    simp only [h5Load, ne_eq, not_true_eq_false, if_false] at hg
+    exact ⟨rfl, rfl, (fieldLoad_ok_iff fld hawf).mp ⟨g, hg⟩⟩
+  · rintro ⟨rfl, rfl, hacc⟩
+    simp only [h5Load, ne_eq, not_true_eq_false, if_false]
+    exact (fieldLoad_ok_iff fld hawf).mpr hacc
+
+/-- the pieces of `Accepted`, each an equivalence on its own: the region attributes, the corner
+table, the validity shape, the labels -/
+theorem accepted_pieces (h : H5Region) (r : TReg) (ndim : Nat) (s : H5Subs) (vl : VArr) (n : List Nat) (k : Nat)
+    (vd : Option (List String)) :
+    (regionLoad h = .ok r ↔ h.okB = true ∧ r = h.region) ∧
+    ((∃ ss, subsLoad ndim (some s) = .ok ss) ↔ ∀ p ∈ List.zip s.names s.rows, rowOkB ndim p.2 = true) ∧
+    ((∃ v', asValid (some vl) n = .ok v') ↔ validAcceptB vl.shape n = true) ∧
+    ((∃ v', vdimsSet k vd = .ok v') ↔ vdimsAcceptB k vd = true) :=
+  ⟨regionLoad_ok_iff h r, subsLoad_ok_iff ndim s, asValid_ok_iff vl n, vdimsSet_ok_iff k vd⟩
+
+/-- … and of the mesh constructor: for a valid region and valid candidate regions, `Mesh(region,
+n, bc, subregions)` succeeds iff there is one positive count per axis, the lower-cased boundary
+condition is legal, and every candidate passes the setter's test (`setter_test_is_on_stored_copy`) -/
+theorem mesh_constructor_accepts_iff (r : TReg) (hr : r.Inv) (n : List Int) (bc : String) (subs : List (String × TReg))
+    (hinv : ∀ p ∈ subs, p.2.Inv) :
+    (∃ m, TMesh.init r n bc subs = .ok m) ↔
+      n.length = r.ndim ∧ (∀ k ∈ n, 0 < k) ∧ Mesh.bcOk r.dims bc.toLower = true ∧
+      ∀ p ∈ subs, candOk r (n.map Int.toNat) p.2 = true :=
+  meshInit_ok_iff r hr n bc subs hinv
+
+/-- **Whatever `from_file` returns for ANY HDF5 file is constructor-grade** (`Inv`): either
+layout, entries missing, foreign or retyped, any side-car — provided only that every dataset has
+as many entries as its shape says (`RawFile.WF`, true of every HDF5 dataset).  Hence it can be
+written and read again (`h5_roundtrip_reread`). -/
+theorem any_file_reader_returns_inv (r : RawFile) (hwf : r.WF) (g : WFld) (h : rawLoadW r = .ok g) : g.f.Inv :=
+  rawLoadW_inv r hwf g h
+
+/-! ## Overwriting -/
+
+/-- **`to_file` replaces the file as a whole: the last write wins.**  Start from ANY directory
+(paths holding larger files with subregions, legacy files, damaged files) and perform ANY history
+of `to_file` calls; then `from_file(path)` returns, for a path written at least once, `reread` of
+the field written there LAST (with the width `widen` gives) — nothing of what the path held before
+shows through — and for a path never written what it returned before. -/
+theorem overwrite_last_wins (fs : List (String × RawFile)) (ws : List (String × WFld)) (p : String) :
+    (∀ x, lastWrite ws p = some x → x.f.Inv →
+      fsRead (fsRun fs ws) p = .ok { f := reread x.f, w := widen x.f.data.buf.kind x.w }) ∧
+    (lastWrite ws p = none → fsRead (fsRun fs ws) p = fsRead fs p) := by
+  constructor
+  · intro x hx hf
+    unfold fsRead
+    rw [fsGet_fsRun, hx]
+    exact rawLoadW_rawSave x hf
+  · intro hn
+    unfold fsRead
+    rw [fsGet_fsRun, hn]
+
+/-- what `lastWrite` is: a later write to the same path replaces an earlier one, writes to other
+paths do not matter -/
+theorem lastWrite_append (ws : List (String × WFld)) (w : String × WFld) (p : String) :
+    lastWrite (ws ++ [w]) p = if w.1 = p then some w.2 else lastWrite ws p := by
+  induction ws with
+  | nil => simp [lastWrite]
+  | cons a t ih =>
+    simp only [List.cons_append, lastWrite, ih]
+    by_cases h : w.1 = p
+    · simp [h]
+    · simp [h]
+
 /-! ## Non-vacuity: concrete instances of the hypotheses, and what the casts do -/
 
 example : exField.Inv := by unfold TFld.Inv; decide +kernel
@@ -687,5 +1145,120 @@ example : (h5Load (.versioned "0.1" "discretisedfield.Field"
     { fieldSave exFloat with mesh := { (fieldSave exFloat).mesh with
         subs := some { names := ["a", "a"], kind := .float, rows := [.floats [1/4, 3/4], .floats [-1/4, 1/4]] } } })).toOption.map
       (fun g => (g.mesh.subs.map (·.1), g.invB)) = some (["a"], true) := by decide +kernel
+
+
+/-! ### round 2 -/
+
+/-- the hypotheses of `h5_roundtrip_items_iff` / `h5_roundtrip_exact_iff` on a field with two
+overlapping subregions (mixed int/float corners), a hole in the mask and NaN/inf data: the item
+list holds, the exact round trip does not (the integer subregion comes back float-typed) -/
+example : exField.Inv ∧ (exField.unit ≠ some "None" ∧ (exField.vdims = none → exField.nvdim = 1) ∧ exField.data.buf.IntSafe) ∧
+    ¬ (∀ p ∈ exField.mesh.subs, p.2.pmin.kind = tableKind exField.mesh ∧ p.2.pmax.kind = tableKind exField.mesh) := by
+  refine ⟨by unfold TFld.Inv; decide +kernel, ⟨by decide, by decide, by unfold DBuf.IntSafe; decide⟩, by decide⟩
+
+/-- `InvW` without `Inv`: the state the constructor built before the fix (hypothesis `hf` of
+`h5_reread_accepts_iff` with the right-hand side false) -/
+example : exTolField.InvW ∧ exTolField.mesh.rereadableB = false ∧ ¬ exTolField.Inv := by
+  refine ⟨by unfold TFld.InvW; decide +kernel, by decide +kernel, by unfold TFld.Inv; decide +kernel⟩
+/-- … and `Inv` on a mesh with two overlapping subregions, and on the mesh with a loose REGION tolerance -/
+example : exField.InvW ∧ exField.mesh.rereadableB = true ∧ exTolFieldLoose.Inv := by
+  refine ⟨by unfold TFld.InvW; decide +kernel, by decide +kernel, by unfold TFld.Inv; decide +kernel⟩
+/-- the hypotheses of `mesh_constructor_inv` / `setter_test_is_on_stored_copy` on the tolerant candidate -/
+example : exTolRegion.Inv ∧ exTolRegionLoose.Inv ∧ (∀ p ∈ [("a", exTolCand)], p.2.Inv) := by
+  refine ⟨by unfold TReg.Inv; decide +kernel, by unfold TReg.Inv; decide +kernel, ?_⟩
+  intro p hp
+  simp only [List.mem_cons, List.not_mem_nil, or_false] at hp
+  subst hp
+  unfold TReg.Inv; decide +kernel
+/-- the candidate's own tolerance has no say: refused on the default-tolerance mesh whatever it
+carries (1e-2, 5, 1e-12), accepted on the loose mesh whatever it carries; a candidate exactly one
+cell long is accepted on both -/
+example : candOk exTolRegion [10] exTolCand = false ∧ candOk exTolRegion [10] { exTolCand with tol := .float 5 } = false ∧
+    candOk exTolRegion [10] { exTolCand with tol := TReg.defaultTol } = false ∧
+    candOk exTolRegionLoose [10] { exTolCand with tol := TReg.defaultTol } = true ∧
+    candOk exTolRegion [10] { exTolCand with pmax := .floats [1/1000000000] } = true := by decide +kernel
+
+/-- legacy files: a mesh-shaped scalar array, an array broadcast along the first axis (with −0 and
+a NaN payload), unordered corners — all `WellFormed`, and what the reader returns -/
+example : exLegacyScalar.WellFormed ∧ exLegacyBcast.WellFormed ∧ exLegacy.WellFormed := by
+  refine ⟨⟨by decide, rfl, ?_, rfl, by decide, by decide, by decide +kernel⟩,
+    ⟨by decide, rfl, ?_, rfl, by decide, by decide, by decide +kernel⟩,
+    ⟨by decide, rfl, ?_, rfl, by decide, by decide, by decide +kernel⟩⟩ <;>
+  · intro a ha
+    have : a = 0 ∨ a = 1 := by
+      have : a < 2 := ha
+      omega
+    rcases this with rfl | rfl <;> decide +kernel
+example : (h5Load (.unversioned exLegacyScalar)).toOption.map (·.data) =
+    some { shape := [2, 1, 1], buf := .floats [.fin 7, .fin (-3)] } := by decide +kernel
+example : (h5Load (.unversioned exLegacyBcast)).toOption.map (·.data.buf) =
+    some (.floats [.fin 1, .negZero, .nan true 5, .fin 1, .negZero, .nan true 5]) := by decide +kernel
+/-- refusal: equal corner components, a zero count, an array that does not broadcast -/
+example : (h5Load (.unversioned { exLegacy with p2 := .floats [2, 1] })).toOption = none ∧
+    (h5Load (.unversioned { exLegacy with n := [2, 0] })).toOption = none ∧
+    (h5Load (.unversioned { exLegacy with array := { shape := [3, 1, 3], buf := .ints (List.replicate 9 0) } })).toOption = none := by
+  decide +kernel
+/-- a side-car box that fits only within a loose tolerance (nm regime): the `tolerance_factor` the
+side-car entry carries has no say, the legacy mesh has the default tolerance — refused -/
+example : (h5Load (.unversioned exLegacyTolSide)).toOption = none := by decide +kernel
+/-- … while the exactly fitting side-car of `exLegacySide` is re-readable -/
+example : (h5Load (.unversioned exLegacySide)).toOption.map (fun g => (g.invB, g.mesh.rereadableB)) = some (true, true) := by
+  decide +kernel
+
+/-- the raw file of `exField` (two subregions, mask with a hole): its 22 entries; without `unit`
+it is refused; without the corner table it is read without subregions; with foreign entries and
+without the writer's stamps it is read as before; with `nvdim` a float it is refused; with `ndim`
+a string it is read as before -/
+example : (rawSave { f := exField, w := .b64 }).entryNames.length = 22 := by decide +kernel
+example : "field@unit" ∈ requiredNames ∧ "field/mesh/region@ndim" ∈ requiredNames := by decide
+example : (rawLoadW ((rawSave { f := exField, w := .b64 }).del "field@unit")).toOption = none := by decide +kernel
+example : (rawLoadW ((rawSave { f := exField, w := .b64 }).del "field/mesh/subregions")).toOption.map (fun g => g.f.mesh.subs.length) = some 0 ∧
+    (rawLoadW (rawSave { f := exField, w := .b64 })).toOption.map (fun g => g.f.mesh.subs.length) = some 2 ∧
+    (rawLoadW ((rawSave { f := exField, w := .b64 }).del "field/mesh/subregion_names")).toOption = none := by decide +kernel
+example : rawLoadW { (rawSave { f := exField, w := .b64 }) with extras := ["@foo", "other", "field/mesh/grp"] } =
+    rawLoadW (rawSave { f := exField, w := .b64 }) := rfl
+example : (rawLoadW ({ (rawSave { f := exField, w := .b64 }) with
+    field := (rawSave { f := exField, w := .b64 }).field.map fun fl => { fl with nvdim := .other } })).toOption = none := by decide +kernel
+
+
+/-- `versioned_accepted_iff` on the file of `exField` (accepted) and on tampered ones: a region
+with an unordered component, a label list of the wrong length, an array with one component more,
+a validity mask that does not broadcast, an upper-case boundary condition (accepted: lower-cased) -/
+example : (fieldSave exField).Accepted := by
+  have : ∃ g, h5Load (h5Save exField) = .ok g := ⟨loaded exField, by decide +kernel⟩
+  exact ((versioned_accepted_iff _ _ _ (by decide +kernel)).mp this).2.2
+example : ({ (fieldSave exField).mesh.region with pmax := .ints [2, 0] } : H5Region).okB = false ∧
+    vdimsAttrAcceptB 2 (.list ["a"]) = false ∧ vdimsAttrAcceptB 2 (.str "none") = false ∧ vdimsAttrAcceptB 2 (.str "None") = true ∧
+    vdimsAttrAcceptB 2 (.list []) = true ∧ arrAcceptB [4, 2, 3] [4, 2] 2 = false ∧ arrAcceptB [1, 1, 2] [4, 2] 2 = true ∧
+    arrAcceptB [4, 2] [4, 2] 1 = true ∧ validAcceptB [4, 1] [4, 2] = false ∧ validAcceptB [4, 1, 1] [4, 2] = true := by
+  decide +kernel
+
+/-- widths: a complex64 field comes back complex64, a float32 / int16 field as float64; what the
+exactness predicate says (2^24 + 1 is not a float32, 1/3 no binary number, the float32 nearest to
+0.1 is; 65504 is the largest float16) -/
+example : widen .complex .b32 = .b32 ∧ widen .float .b32 = .b64 ∧ widen .int .b16 = .b64 := by decide
+example : (FFmt.ofW .b32).repQ 16777217 = false ∧ (FFmt.ofW .b32).repQ 16777216 = true ∧ (FFmt.ofW .b32).repQ (1/3) = false ∧
+    (FFmt.ofW .b32).repQ (13421773/134217728) = true ∧ (FFmt.ofW .b16).repQ 65504 = true ∧ (FFmt.ofW .b16).repQ 65520 = false ∧
+    (FFmt.ofW .b32).repQ (1 / 2 ^ 149) = true ∧ (FFmt.ofW .b32).repQ (1 / 2 ^ 150) = false := by decide +kernel
+/-- the hypotheses of `narrow_int_values_roundtrip`: int16 data with the extremes of the type -/
+example : ({ f := { exFloat with data := { shape := [3, 1], buf := .ints [-32768, 32767, 5] } }, w := .b16 } : WFld).exactB = true ∧
+    ({ f := { exFloat with data := { shape := [3, 1], buf := .ints [-32769, 0, 5] } }, w := .b16 } : WFld).exactB = false := by
+  decide +kernel
+
+/-- `RawFile.WF` for the file of `exField`, and for that file with the corner table removed -/
+example : (rawSave { f := exField, w := .b64 }).WF := by
+  refine ⟨?_, fun wl h => by cases h⟩
+  intro f hf
+  cases hf
+  exact ⟨fun wa h => by cases h; unfold DArr.wf; decide +kernel, fun v h => by cases h; decide +kernel⟩
+
+/-- overwriting: `b` written once, `a` three times (first a field with two subregions, last one
+without); the directory held a damaged file under `a` and a foreign one under `c` -/
+example : lastWrite [("a", { f := exField, w := .b64 }), ("b", { f := exFloat, w := .b32 }), ("a", { f := exNoLabels, w := .b64 }),
+      ("a", { f := exFloat, w := .b64 })] "a" = some { f := exFloat, w := .b64 } := by decide +kernel
+example : (fsRead (fsRun [("a", default), ("c", default)]
+      [("a", { f := exField, w := .b64 }), ("b", { f := exFloat, w := .b32 }), ("a", { f := exFloat, w := .b64 })]) "a").toOption.map
+        (fun g => (g.f.mesh.subs.length, g.w)) = some (exFloat.mesh.subs.length, .b64) ∧
+    (fsRead (fsRun [("a", default), ("c", default)] [("a", { f := exField, w := .b64 })]) "c").toOption = none := by decide +kernel
 
 end DFV.C10
